@@ -1,32 +1,14 @@
 import KyupyVerif.Proofs.CircObjSubstStatic
-/-! C09: in the regular case (`substRegular`: every output of the instance connected, output ports of the implementation
-with exactly one input line, ports that become forks gap-free) the fork outputs of the result of `substitute` are gap-free,
-so that `substStatic ∧ substRegular` gives `WFc` without anything evaluated along the run.
+/-! C09: the fork outputs of the result of `substitute` are gap-free, so that `substStatic` alone gives `WFc`.
 
-Old forks: only `Line.remove` of an ignored input touches them (squeeze keeps them gap-free).  A copied fork `X` of the
-implementation fork / port `n`: every occupied pin is `< len(n.outs)` or the one extra pin of a port that is read
-internally; every pin `< len(n.outs)` is occupied, because the implementation line there is either copied (its reader has
-an image) or leads to a pure output port, whose instance pin is connected. -/
+Forks that are not images of `node_map` (the forks of the host): only `Line.remove` of an ignored input touches their
+output lists, and the squeeze keeps them gap-free; every other assignment of `substitute` writes output pins of images.
+Images that are forks: after the connecting loops their output lists may have a gap (an unconnected output pin of the
+instance); the loop that follows makes them dense again (`densify`).  The removal of the dangling logic keeps all forks
+gap-free. -/
 namespace KV.CircObj
 
-theorem pin_some_of_gapfree {L : Pins} (h : none ∉ L) {p : Nat} (hp : p < L.length) : ∃ x, pin L p = some x := by
-  rw [pin_eq_getElem?, List.getElem?_eq_getElem hp]
-  cases hx : L[p] with
-  | none => exact absurd (hx ▸ List.getElem_mem hp) h
-  | some x => exact ⟨x, rfl⟩
-
-theorem gapfree_of_pins {L : Pins} (h : ∀ p, p < L.length → pin L p ≠ none) : none ∉ L := by
-  intro hm
-  obtain ⟨p, hp, he⟩ := List.mem_iff_getElem.1 hm
-  apply h p hp
-  rw [pin_eq_getElem?, List.getElem?_eq_getElem hp, he]; rfl
-
-theorem all_isSome_gapfree {L : Pins} (h : L.all (·.isSome) = true) : none ∉ L := by
-  intro hm
-  have := List.all_eq_true.1 h _ hm
-  simp at this
-
-/-- one pin of a node is gap-free after `Line.remove()` if it was before -/
+/-- one pin list of a fork is gap-free after `Line.remove()` if it was before -/
 theorem removeLine_outs_gapfree {c : Circ} {PI PO} {l : Nat} (s : SInv c PI PO) (hl : l ∈ c.lines) (hPO : ¬ PO l) (j : Nat)
     (hk : (c.nobj j).kind = FORK) (hj : none ∉ (c.nobj j).outs) : none ∉ ((removeLine c l).nobj j).outs := by
   obtain ⟨d, hdrv, hd, hdpin⟩ := s.ldrv l hl hPO
@@ -41,234 +23,84 @@ theorem removeLine_outs_gapfree {c : Circ} {PI PO} {l : Nat} (s : SInv c PI PO) 
     exact fun h => hj ((List.eraseIdx_sublist _ _).subset h)
   · exact hj
 
-/-! ## the facts carried through the loops -/
-/-- forks that are not images of `node_map` are gap-free; an image that is a fork comes from an implementation fork or from
-a port for which a fork is made (`isForkImage`); output lists of images never end in `None` -/
-structure FFk (m : Circ) (nm : NMap) (c : Circ) : Prop where
-  old : ∀ j ∈ c.nodes, (∀ e ∈ nm, e.2 ≠ j) → (c.nobj j).kind = FORK → none ∉ (c.nobj j).outs
-  gap : ∀ e ∈ nm, (c.nobj e.2).kind = FORK → isForkImage m e.1 = true
-  last : ∀ e ∈ nm, LastSome (c.nobj e.2).outs
+/-- the forks that are not images of `node_map` are gap-free -/
+def OldFF (nm : NMap) (c : Circ) : Prop :=
+  ∀ j ∈ c.nodes, (∀ e ∈ nm, e.2 ≠ j) → (c.nobj j).kind = FORK → none ∉ (c.nobj j).outs
 
-/-- `FFk` is preserved by every step that leaves kinds and node list alone and changes output lists only of images, by
-`growSet … (some _)` -/
-theorem FFk.step {m : Circ} {nm : NMap} {c c' : Circ} (f : FFk m nm c) (hnodes : c'.nodes = c.nodes)
+/-- `OldFF` is preserved by every step that leaves kinds and node list alone and changes output lists only of images -/
+theorem OldFF.step {nm : NMap} {c c' : Circ} (f : OldFF nm c) (hnodes : c'.nodes = c.nodes)
     (hkind : ∀ j, (c'.nobj j).kind = (c.nobj j).kind)
-    (houts : ∀ j, (c'.nobj j).outs = (c.nobj j).outs ∨ ((∃ e ∈ nm, e.2 = j) ∧ ∃ p x, (c'.nobj j).outs = growSet (c.nobj j).outs p (some x))) :
-    FFk m nm c' := by
-  refine ⟨?_, ?_, ?_⟩
-  · intro j hj hni hk
-    rw [hnodes] at hj; rw [hkind] at hk
-    rcases houts j with h | ⟨⟨e, he, hej⟩, _⟩
-    · rw [h]; exact f.old j hj hni hk
-    · exact absurd hej (hni e he)
-  · intro e he hk; rw [hkind] at hk; exact f.gap e he hk
-  · intro e he
-    rcases houts e.2 with h | ⟨_, p, x, h⟩
-    · rw [h]; exact f.last e he
-    · rw [h]; exact lastSome_growSet (f.last e he) p x
+    (houts : ∀ j, (c'.nobj j).outs = (c.nobj j).outs ∨ ∃ e ∈ nm, e.2 = j) : OldFF nm c' := by
+  intro j hj hni hk
+  rw [hnodes] at hj; rw [hkind] at hk
+  rcases houts j with h | ⟨e, he, hej⟩
+  · rw [h]; exact f j hj hni hk
+  · exact absurd hej (hni e he)
 
-/-! ## the node loop -/
-theorem addImplNode_cases2 {m : Circ} {hostName : String} {des : Option Nat} {st st' : Circ × NMap} {n : Nat}
-    (h : addImplNode m hostName des st n = some st') :
-    (st' = st ∧ ((inIos m n = false ∧ ∃ dn, des = some dn ∧ sameNode (m.nobj n) (m.nobj dn) = true) ∨
-                 (inIos m n = true ∧ forkCond m n = false))) ∨
-    ∃ kind, st' = (addNode st.1 (hostName ++ "~" ++ (m.nobj n).name) kind, nmSet m st.2 n st.1.nextN) ∧
-      (inIos m n = true → forkCond m n = true ∧ kind = FORK) ∧
-      (inIos m n = false → kind = (m.nobj n).kind ∧ ∀ dn, des = some dn → sameNode (m.nobj n) (m.nobj dn) = false) := by
-  have key : ∀ kind, (if nameFree st.1 (hostName ++ "~" ++ (m.nobj n).name) kind = true then
-        some (addNode st.1 (hostName ++ "~" ++ (m.nobj n).name) kind, nmSet m st.2 n st.1.nextN) else none) = some st' →
-      st' = (addNode st.1 (hostName ++ "~" ++ (m.nobj n).name) kind, nmSet m st.2 n st.1.nextN) := by
-    intro kind hk
-    split at hk
-    · cases hk; rfl
-    · cases hk
-  unfold addImplNode at h
-  simp only at h
-  by_cases hio : inIos m n = true
-  · simp only [hio, Bool.not_true, Bool.false_eq_true, if_false] at h
-    split at h
-    · rename_i hc
-      exact Or.inr ⟨_, key _ h, fun _ => ⟨by unfold forkCond; simp only [hc, Bool.true_or], rfl⟩, fun h' => by simp [hio] at h'⟩
-    · rename_i hc1
-      split at h
-      · rename_i hc
-        exact Or.inr ⟨_, key _ h, fun _ => ⟨by unfold forkCond; simp only [hc, Bool.or_true], rfl⟩, fun h' => by simp [hio] at h'⟩
-      · rename_i hc2
-        cases h
-        refine Or.inl ⟨rfl, Or.inr ⟨hio, ?_⟩⟩
-        unfold forkCond
-        simp only [Bool.not_eq_true] at hc1 hc2
-        simp only [hc1, hc2, Bool.or_self]
-  · have hio' : inIos m n = false := by simpa using hio
-    simp only [hio, Bool.not_false, if_true] at h
-    cases des with
-    | none =>
-      simp only [if_true] at h
-      exact Or.inr ⟨_, key _ h, fun h' => absurd h' hio, fun _ => ⟨rfl, fun dn hd => by cases hd⟩⟩
-    | some dn =>
-      simp only at h
-      split at h
-      · rename_i hs
-        refine Or.inr ⟨_, key _ h, fun h' => absurd h' hio, fun _ => ⟨rfl, fun dn' hd => ?_⟩⟩
-        cases hd
-        simpa using hs
-      · rename_i hs
-        cases h
-        exact Or.inl ⟨rfl, Or.inl ⟨hio', dn, rfl, by simpa using hs⟩⟩
-
-/-- every visited implementation node has an image, or is a port for which no fork is made -/
-def KeysC (m : Circ) (nm : NMap) (rest : List Nat) : Prop :=
-  ∀ n ∈ m.nodes, n ∉ rest → (∃ v, (n, v) ∈ nm) ∨ (inIos m n = true ∧ forkCond m n = false)
-
-structure FF2 (m : Circ) (des : Option Nat) (c : Circ) (nm : NMap) (rest : List Nat) : Prop where
-  k : FFk m nm c
-  keysC : KeysC m nm rest
-  desKey : ∀ dn, des = some dn → ∃ v, (dn, v) ∈ nm
-
-theorem addImplNode_ff2 {PI PO} {m : Circ} {hostName : String} {des : Option Nat} {st st' : Circ × NMap} {n : Nat} {rest : List Nat}
-    (wf : WFc m) (hdes : ∀ dn, des = some dn → inIos m dn = false) (hn : n ∈ m.nodes)
-    (ci : CopyInv PI PO st.1 st.2) (inv : NmInv m des st.1 st.2 (n :: rest)) (f : FF2 m des st.1 st.2 (n :: rest))
-    (h : addImplNode m hostName des st n = some st') : FF2 m des st'.1 st'.2 rest := by
-  have wf0 := wf.toWFc0
-  rcases addImplNode_cases2 h with ⟨rfl, hcase⟩ | ⟨kind, rfl, hc1, hc2⟩
-  · refine ⟨f.k, ?_, f.desKey⟩
-    intro x hx hxr
-    by_cases hxn : x = n
-    · subst hxn
-      rcases hcase with ⟨_, dn, hd, hs⟩ | hr
-      · obtain ⟨v, hv⟩ := f.desKey dn hd
-        have : x = dn := sameNode_inj wf0 hx (inv.ok.keysIn _ hv) hs
-        subst this
-        exact Or.inl ⟨v, hv⟩
-      · exact Or.inr hr
-    · exact f.keysC x hx (by simp [hxn, hxr])
+/-! ## the loops -/
+theorem addImplNode_oldff {m : Circ} {hostName : String} {des : Option Nat} {st st' : Circ × NMap} {n : Nat} {rest : List Nat}
+    (wf : WFc0 m) (hdes : ∀ dn, des = some dn → inIos m dn = false) (hn : n ∈ m.nodes)
+    (inv : NmInv m des st.1 st.2 (n :: rest)) (f : OldFF st.2 st.1)
+    (h : addImplNode m hostName des st n = some st') : OldFF st'.2 st'.1 := by
+  rcases addImplNode_cases h with rfl | ⟨kind, rfl, hc1, hc2⟩
+  · exact f
   · have hfresh : ∀ e ∈ st.2, e.1 ≠ n := by
       intro e he
       rcases inv.keyDone e he with hd | hd
       · intro heq
         by_cases hio : inIos m n = true
         · have := hdes e.1 hd; rw [heq, hio] at this; cases this
-        · have := (hc2 (by simpa using hio)).2 e.1 hd
+        · have := hc2 (by simpa using hio) e.1 hd
           rw [heq, sameNode_self] at this; cases this
       · intro heq; exact hd (by simp [heq])
-    rw [nmSet_fresh wf0 inv.ok hn hfresh]
-    have hvne : ∀ e ∈ st.2, e.2 ≠ st.1.nextN := fun e he => Nat.ne_of_lt (inv.valsLt e he)
-    have hold : ∀ j, j ≠ st.1.nextN → (addNode st.1 (hostName ++ "~" ++ (m.nobj n).name) kind).nobj j = st.1.nobj j := by
-      intro j hj; simp [addNode, hj]
-    have hnew : (addNode st.1 (hostName ++ "~" ++ (m.nobj n).name) kind).nobj st.1.nextN =
-        { name := hostName ++ "~" ++ (m.nobj n).name, kind := kind, index := st.1.nodes.length, ins := [], outs := [], alive := true } := by
-      simp [addNode]
-    refine ⟨⟨?_, ?_, ?_⟩, ?_, ?_⟩
-    · intro j hj hni hk
-      have hjn : j ≠ st.1.nextN := fun e => hni (n, st.1.nextN) (by simp) e.symm
-      have hj' : j ∈ st.1.nodes := by
-        have : j ∈ st.1.nodes ++ [st.1.nextN] := hj
-        simpa [hjn] using this
-      rw [hold j hjn] at hk ⊢
-      exact f.k.old j hj' (fun e he => hni e (by simp [he])) hk
-    · intro e he hk
-      rcases List.mem_append.1 he with h1 | h1
-      · rw [hold _ (hvne e h1)] at hk; exact f.k.gap e h1 hk
-      · simp only [List.mem_singleton] at h1; subst h1
-        simp only [hnew] at hk
-        unfold isForkImage
-        by_cases hio : inIos m n = true
-        · simp only [hio, if_true]; exact (hc1 hio).1
-        · have := (hc2 (by simpa using hio)).1
-          rw [this] at hk
-          simp [hio, hk]
-    · intro e he
-      rcases List.mem_append.1 he with h1 | h1
-      · rw [hold _ (hvne e h1)]; exact f.k.last e h1
-      · simp only [List.mem_singleton] at h1; subst h1
-        rw [hnew]; exact lastSome_nil
-    · intro x hx hxr
-      by_cases hxn : x = n
-      · subst hxn; exact Or.inl ⟨st.1.nextN, by simp⟩
-      · rcases f.keysC x hx (by simp [hxn, hxr]) with ⟨v, hv⟩ | hr
-        · exact Or.inl ⟨v, by simp [hv]⟩
-        · exact Or.inr hr
-    · intro dn hd
-      obtain ⟨v, hv⟩ := f.desKey dn hd
-      exact ⟨v, by simp [hv]⟩
+    rw [nmSet_fresh wf inv.ok hn hfresh]
+    intro j hj hni hk
+    have hjn : j ≠ st.1.nextN := fun e => hni (n, st.1.nextN) (by simp) e.symm
+    have hj' : j ∈ st.1.nodes := by
+      have : j ∈ st.1.nodes ++ [st.1.nextN] := hj
+      simpa [hjn] using this
+    have hold : (addNode st.1 (hostName ++ "~" ++ (m.nobj n).name) kind).nobj j = st.1.nobj j := by
+      simp [addNode, hjn]
+    rw [hold] at hk ⊢
+    exact f j hj' (fun e he => hni e (by simp [he])) hk
 
-theorem phase1_ff2 {c : Circ} {i : Nat} {m : Circ} {sh : Shape} (wfc : WFc c) (hi : i ∈ c.nodes)
-    (hkd : ∀ dn, sh.des = some dn → (m.nobj dn).kind ≠ FORK) :
-    FF2 m sh.des (phase1 c i m sh.des).1 (phase1 c i m sh.des).2 m.nodes := by
+theorem phase1_oldff {c : Circ} {i : Nat} {m : Circ} (des : Option Nat) (wfc : WFc c) (hi : i ∈ c.nodes) :
+    OldFF (phase1 c i m des).2 (phase1 c i m des).1 := by
   unfold phase1
-  cases hd : sh.des with
+  cases des with
   | none =>
-    refine ⟨⟨?_, fun e he => by simp at he, fun e he => by simp at he⟩, fun x _ hxr => absurd ‹x ∈ m.nodes› hxr, fun dn h => by cases h⟩
     intro j hj _ hk
     exact removeNode_ffull wfc.toWFc0 hi wfc.forkFull j hj hk
   | some dn =>
-    refine ⟨⟨?_, ?_, ?_⟩, fun x _ hxr => absurd ‹x ∈ m.nodes› hxr, fun dn' h => by cases h; exact ⟨i, by simp⟩⟩
-    · intro j hj hni hk
-      have hji : j ≠ i := fun e => hni (dn, i) (by simp) e.symm
-      simp only [upd_get, hji, if_false] at hk ⊢
-      exact wfc.forkFull j hj hk
-    · intro e he hk
-      simp only [List.mem_singleton] at he; subst he
-      simp only [upd_get, if_true] at hk
-      exact absurd hk (hkd dn hd)
-    · intro e he
-      simp only [List.mem_singleton] at he; subst he
-      simp only [upd_get, if_true]
-      exact lastSome_nil
+    intro j hj hni hk
+    have hji : j ≠ i := fun e => hni (dn, i) (by simp) e.symm
+    simp only [upd_get, hji, if_false] at hk ⊢
+    exact wfc.forkFull j hj hk
 
-/-! ## the line loop -/
-/-- every visited implementation line with both ends in `node_map` occupies the output pin of its driver's image -/
-def Done3 (m : Circ) (nm : NMap) (c : Circ) (rest : List Nat) : Prop :=
-  ∀ l ∈ m.lines, l ∉ rest → ∀ D dp R rp, implLineEnds m nm l = some (D, dp, R, rp) → pin (c.nobj D).outs dp ≠ none
-
-theorem addImplLine_ff3 {m : Circ} {nm : NMap} {c c' : Circ} {l : Nat} {rest : List Nat} (wf : WFc0 m) (ok : NmOK m nm)
-    (hl : l ∈ m.lines) (f : FFk m nm c) (d3 : Done3 m nm c (l :: rest)) (h : addImplLine m nm c l = some c') :
-    FFk m nm c' ∧ Done3 m nm c' rest := by
+theorem addImplLine_oldff {m : Circ} {nm : NMap} {c c' : Circ} {l : Nat} (wf : WFc0 m) (ok : NmOK m nm)
+    (hl : l ∈ m.lines) (f : OldFF nm c) (h : addImplLine m nm c l = some c') : OldFF nm c' := by
   unfold addImplLine at h
   cases he : implLineEnds m nm l with
-  | none =>
-    simp only [he, Option.some.injEq] at h; subst h
-    refine ⟨f, ?_⟩
-    intro x hx hxr D dp R rp hq
-    by_cases hxl : x = l
-    · subst hxl; rw [he] at hq; cases hq
-    · exact d3 x hx (by simp [hxl, hxr]) D dp R rp hq
+  | none => simp only [he, Option.some.injEq] at h; subst h; exact f
   | some q =>
     obtain ⟨D, dp, R, rp⟩ := q
     obtain ⟨d, r, hd, hr, hdm, hrm, hdp, hrp⟩ := implLineEnds_spec wf ok hl he
     simp only [he, Option.some.injEq] at h
     subst h
     have hn := addLine_nobj c D (some dp) R (some rp)
-    refine ⟨f.step rfl (fun j => (hn j).2.1) ?_, ?_⟩
-    · intro j
-      rw [(hn j).2.2.2.2.1]
-      by_cases hj : j = D
-      · subst hj
-        exact Or.inr ⟨⟨(d, j), hdm, rfl⟩, dp, c.nextL, by simp [dpinOf]⟩
-      · exact Or.inl (by simp [hj])
-    · intro x hx hxr D' dp' R' rp' hq
-      rw [(hn D').2.2.2.2.1]
-      by_cases hxl : x = l
-      · subst hxl
-        rw [he] at hq
-        simp only [Option.some.injEq, Prod.mk.injEq] at hq
-        obtain ⟨rfl, rfl, _, _⟩ := hq
-        simp [dpinOf, pin_growSet]
-      · have old := d3 x hx (by simp [hxl, hxr]) D' dp' R' rp' hq
-        split
-        · simp only [dpinOf, Option.getD_some, pin_growSet]
-          split
-          · simp
-          · exact old
-        · exact old
+    refine f.step rfl (fun j => (hn j).2.1) ?_
+    intro j
+    rw [(hn j).2.2.2.2.1]
+    by_cases hj : j = D
+    · subst hj; exact Or.inr ⟨(d, j), hdm, rfl⟩
+    · exact Or.inl (by simp [hj])
 
-/-! ## the input loop: the output lists of the images do not change -/
-theorem connectIn_ff4 {c0 : Circ} {i : Nat} {m : Circ} {nm : NMap} {L0 : Nat} {c c' : Circ} {p : Nat × Option Nat}
-    {rest : List (Nat × Option Nat)} (inv : Inv4 c0 i m nm L0 c (p :: rest)) (f : FFk m nm c) (d3 : Done3 m nm c [])
-    (h : connectIn m nm c p = some c') : FFk m nm c' ∧ Done3 m nm c' [] := by
+theorem connectIn_oldff {c0 : Circ} {i : Nat} {m : Circ} {nm : NMap} {L0 : Nat} {c c' : Circ} {p : Nat × Option Nat}
+    {rest : List (Nat × Option Nat)} (inv : Inv4 c0 i m nm L0 c (p :: rest)) (f : OldFF nm c)
+    (h : connectIn m nm c p = some c') : OldFF nm c' := by
   obtain ⟨inn, o⟩ := p
   cases o with
-  | none => simp only [connectIn, Option.some.injEq] at h; subst h; exact ⟨f, d3⟩
+  | none => simp only [connectIn, Option.some.injEq] at h; subst h; exact f
   | some ll =>
     have hpll : Pend ((inn, some ll) :: rest) ll := ⟨(inn, some ll), by simp, rfl⟩
     simp only [connectIn] at h
@@ -281,45 +113,10 @@ theorem connectIn_ff4 {c0 : Circ} {i : Nat} {m : Circ} {nm : NMap} {L0 : Nat} {c
       obtain ⟨d, hdrv, hd, hdpin⟩ := s0.ldrv ll hll (inv.disj ll hpll)
       have ha := (s0.lfresh ll hll).2
       have hn := removeLine_nobj' hdrv ha
-      have hnobj : ∀ j, (setStaleReader c ll none (c.lobj ll).readerPin).nobj j = c.nobj j := fun _ => rfl
-      have hne : ∀ e ∈ nm, e.2 ≠ d := by
-        intro e he heq
-        rw [hnobj] at hdpin
-        have := (inv.outs e he _ ll (by rw [heq]; exact hdpin)).1
-        have := inv.old ll hpll
-        omega
-      have himg : ∀ e ∈ nm, ((removeLine (setStaleReader c ll none (c.lobj ll).readerPin) ll).nobj e.2).outs = (c.nobj e.2).outs := by
-        intro e he
-        rw [(hn e.2).2.2.2.2.1]; simp only [hne e he, if_false, hnobj]
-      refine ⟨⟨?_, ?_, ?_⟩, ?_⟩
-      · intro j hj hni hk
-        rw [(removeLine_frame _ ll).1] at hj
-        rw [(hn j).2.1] at hk
-        exact removeLine_outs_gapfree s0 hll (inv.disj ll hpll) j hk (f.old j hj hni hk)
-      · intro e he hk; rw [(hn e.2).2.1] at hk; exact f.gap e he hk
-      · intro e he; rw [himg e he]; exact f.last e he
-      · intro x hx hxr D dp R rp hq
-        have hDm : ∃ e ∈ nm, e.2 = D := by
-          unfold implLineEnds at hq
-          cases hr : (m.lobj x).reader with
-          | none => simp [hr] at hq
-          | some r =>
-            cases hd' : (m.lobj x).driver with
-            | none => simp [hr, hd'] at hq
-            | some d' =>
-              simp only [hr, hd'] at hq
-              cases h1 : nmFind m nm r with
-              | none => simp [h1] at hq
-              | some R' =>
-                cases h2 : nmFind m nm d' with
-                | none => simp [h1, h2] at hq
-                | some D' =>
-                  simp only [h1, h2, Option.some.injEq, Prod.mk.injEq] at hq
-                  obtain ⟨e1, _, _, _⟩ := hq
-                  subst e1
-                  exact nmFind_mem h2
-        obtain ⟨e, he, rfl⟩ := hDm
-        rw [himg e he]; exact d3 x hx hxr e.2 dp R rp hq
+      intro j hj hni hk
+      rw [(removeLine_frame _ ll).1] at hj
+      rw [(hn j).2.1] at hk
+      exact removeLine_outs_gapfree s0 hll (inv.disj ll hpll) j hk (f j hj hni hk)
     · cases ht : inTarget m nm inn with
       | none => simp [ht] at h
       | some q =>
@@ -327,22 +124,13 @@ theorem connectIn_ff4 {c0 : Circ} {i : Nat} {m : Circ} {nm : NMap} {L0 : Nat} {c
         simp only [ht, Option.some.injEq] at h
         subst h
         have hn := setReader_nobj c ll R rp
-        refine ⟨f.step rfl (fun j => (hn j).2.1) (fun j => Or.inl (hn j).2.2.2.2.1), ?_⟩
-        intro x hx hxr D dp R' rp' hq
-        rw [(hn D).2.2.2.2.1]; exact d3 x hx hxr D dp R' rp' hq
+        exact f.step rfl (fun j => (hn j).2.1) (fun j => Or.inl (hn j).2.2.2.2.1)
 
-/-! ## the output loop -/
-/-- every visited output line of the implementation occupies its target pin -/
-def Done5 (m : Circ) (nm : NMap) (all : List Nat) (c : Circ) (rest : List (Nat × Option Nat)) : Prop :=
-  ∀ l ∈ all, l ∉ rest.map (·.1) → ∀ D dp, outTarget m nm l = some (D, dp) → pin (c.nobj D).outs dp ≠ none
-
-theorem connectOut_ff5 {m : Circ} {nm : NMap} {all : List Nat} {st st' : Circ × List Nat} {p : Nat × Option Nat}
-    {rest : List (Nat × Option Nat)} (hsome : p.2.isSome = true) (f : FFk m nm st.1) (d3 : Done3 m nm st.1 [])
-    (d5 : Done5 m nm all st.1 (p :: rest)) (hd : st.2 = []) (h : connectOut m nm st p = some st') :
-    FFk m nm st'.1 ∧ Done3 m nm st'.1 [] ∧ Done5 m nm all st'.1 rest ∧ st'.2 = [] := by
+theorem connectOut_oldff {m : Circ} {nm : NMap} {st st' : Circ × List Nat} {p : Nat × Option Nat} (f : OldFF nm st.1)
+    (h : connectOut m nm st p = some st') : OldFF nm st'.1 := by
   obtain ⟨l, o⟩ := p
   cases o with
-  | none => simp at hsome
+  | none => simp only [connectOut, Option.some.injEq] at h; subst h; exact f
   | some ll =>
     simp only [connectOut] at h
     cases ht : outTarget m nm l with
@@ -353,118 +141,107 @@ theorem connectOut_ff5 {m : Circ} {nm : NMap} {all : List Nat} {st st' : Circ ×
       subst h
       have hn := setDriver_nobj st.1 ll D dp
       obtain ⟨e, he, hed⟩ := outTarget_mem ht
-      refine ⟨f.step rfl (fun j => (hn j).2.1) ?_, ?_, ?_, hd⟩
-      · intro j
-        rw [(hn j).2.2.2.2.2]
-        by_cases hj : j = D
-        · subst hj; exact Or.inr ⟨⟨e, he, hed⟩, dp, ll, by simp⟩
-        · exact Or.inl (by simp [hj])
-      · intro x hx hxr D' dp' R' rp' hq
-        rw [(hn D').2.2.2.2.2]
-        have old := d3 x hx hxr D' dp' R' rp' hq
-        split
-        · rw [pin_growSet]; split
-          · simp
-          · exact old
-        · exact old
-      · intro x hx hxr D' dp' hq
-        rw [(hn D').2.2.2.2.2]
-        by_cases hxl : x = l
-        · subst hxl
-          rw [ht] at hq
-          simp only [Option.some.injEq, Prod.mk.injEq] at hq
-          obtain ⟨rfl, rfl⟩ := hq
-          simp [pin_growSet]
-        · have old := d5 x hx (by simp only [List.map_cons, List.mem_cons, not_or]; exact ⟨hxl, hxr⟩) D' dp' hq
-          split
-          · rw [pin_growSet]; split
-            · simp
-            · exact old
-          · exact old
+      refine f.step rfl (fun j => (hn j).2.1) ?_
+      intro j
+      rw [(hn j).2.2.2.2.2]
+      by_cases hj : j = D
+      · subst hj; exact Or.inr ⟨e, he, hed⟩
+      · exact Or.inl (by simp [hj])
 
-/-! ## the fork outputs of the result -/
-theorem ffull_final {m : Circ} {nm : NMap} {all : List Nat} {allp : List (Nat × Option Nat)} {c5 : Circ} (wf : WFc m) (ok : NmOK m nm) (keysC : KeysC m nm [])
-    (hone : ∀ O ∈ m.io, (m.nobj O).ins.length ≤ 1) (hall : ∀ l, OutLine m l → l ∈ all)
-    (hports : ∀ x ∈ m.io, forkCond m x = true → none ∉ (m.nobj x).outs)
-    (inv5 : Inv5 m nm allp (c5, []) []) (f : FFk m nm c5) (d3 : Done3 m nm c5 []) (d5 : Done5 m nm all c5 []) : FFull c5 := by
-  have wf0 := wf.toWFc0
+/-! ## the dense outputs -/
+theorem densify_kind : ∀ (vs : List Nat) (c : Circ) (x : Nat), ((vs.foldl densifyNode c).nobj x).kind = (c.nobj x).kind := by
+  intro vs
+  induction vs with
+  | nil => intro c x; rfl
+  | cons v vs ih => intro c x; simp only [List.foldl_cons]; rw [ih, ((densifyNode_frame c v).2.2.2.2.2.2.2 x).2.1]
+
+theorem densify_outs_notin : ∀ (vs : List Nat) (c : Circ) (x : Nat), x ∉ vs → ((vs.foldl densifyNode c).nobj x).outs = (c.nobj x).outs := by
+  intro vs
+  induction vs with
+  | nil => intro c x _; rfl
+  | cons v vs ih =>
+    intro c x hx
+    simp only [List.mem_cons, not_or] at hx
+    simp only [List.foldl_cons]
+    rw [ih _ x hx.2, ((densifyNode_frame c v).2.2.2.2.2.2.2 x).2.2.2.2.2 hx.1]
+
+/-- a gap-free fork stays gap-free through the loop -/
+theorem densify_keeps : ∀ (vs : List Nat) (c : Circ) (x : Nat), (c.nobj x).kind = FORK → none ∉ (c.nobj x).outs →
+    none ∉ ((vs.foldl densifyNode c).nobj x).outs := by
+  intro vs
+  induction vs with
+  | nil => intro c x _ h; exact h
+  | cons v vs ih =>
+    intro c x hk h
+    simp only [List.foldl_cons]
+    apply ih
+    · rw [((densifyNode_frame c v).2.2.2.2.2.2.2 x).2.1]; exact hk
+    · by_cases hxv : x = v
+      · subst hxv; exact densifyNode_full c x hk
+      · rw [((densifyNode_frame c v).2.2.2.2.2.2.2 x).2.2.2.2.2 hxv]; exact h
+
+/-- a fork that the loop visits is gap-free afterwards -/
+theorem densify_visited : ∀ (vs : List Nat) (c : Circ) (x : Nat), x ∈ vs → (c.nobj x).kind = FORK →
+    none ∉ ((vs.foldl densifyNode c).nobj x).outs := by
+  intro vs
+  induction vs with
+  | nil => intro c x hx; simp at hx
+  | cons v vs ih =>
+    intro c x hx hk
+    simp only [List.foldl_cons]
+    by_cases hxv : x = v
+    · subst hxv
+      exact densify_keeps vs _ x (by rw [((densifyNode_frame c x).2.2.2.2.2.2.2 x).2.1]; exact hk) (densifyNode_full c x hk)
+    · simp only [List.mem_cons] at hx
+      rcases hx with hx | hx
+      · exact absurd hx hxv
+      · exact ih _ x hx (by rw [((densifyNode_frame c v).2.2.2.2.2.2.2 x).2.1]; exact hk)
+
+/-- after `densify` every fork is gap-free: the images by the loop, the others by `OldFF` -/
+theorem densify_ffull {nm : NMap} {c5 : Circ} (f : OldFF nm c5) : FFull (densify c5 nm) := by
   intro j hj hk
-  by_cases himg : ∃ e ∈ nm, e.2 = j
-  · obtain ⟨e, he, rfl⟩ := himg
-    have hn : e.1 ∈ m.nodes := ok.keysIn e he
-    have gap : none ∉ (m.nobj e.1).outs := by
-      have hfi := f.gap e he hk
-      unfold isForkImage at hfi
-      by_cases hio : inIos m e.1 = true
-      · simp only [hio, if_true] at hfi
-        exact hports e.1 ((inIos_iff wf0 hn).1 hio) hfi
-      · simp only [hio] at hfi
-        exact wf.forkFull e.1 hn (by simpa using hfi)
-    have hee : (e.1, e.2) ∈ nm := he
-    -- every pin below the number of outputs of the implementation node is occupied
-    have cover : ∀ p, p < (m.nobj e.1).outs.length → pin (c5.nobj e.2).outs p ≠ none := by
-      intro p hp
-      obtain ⟨l, hl⟩ := pin_some_of_gapfree gap hp
-      obtain ⟨hlm, hld, hlp⟩ := wf0.outsBack e.1 hn p l hl
-      obtain ⟨r, hr1, hr2, hr3⟩ := wf0.lrdr l hlm
-      rcases keysC r hr2 (by simp) with ⟨R, hR⟩ | ⟨hio, hfc⟩
-      · have : implLineEnds m nm l = some (e.2, p, R, (m.lobj l).readerPin) := by
-          unfold implLineEnds
-          simp only [hr1, hld, (nmFind_iff wf0 ok hr2).2 hR, (nmFind_iff wf0 ok hn).2 hee, hlp]
-        exact d3 l hlm (by simp) _ _ _ _ this
-      · have hrio : r ∈ m.io := (inIos_iff wf0 hr2).1 hio
-        have hins := ins_pos_of_reader wf0 hlm hr1
-        have houts0 : (m.nobj r).outs.length = 0 := by
-          unfold forkCond at hfc
-          simp only [Bool.or_eq_false_iff, Bool.and_eq_false_iff, decide_eq_false_iff_not, Nat.not_lt, Nat.le_zero_eq,
-            beq_eq_false_iff_ne, ne_eq] at hfc
-          rcases hfc.1 with h1 | h1
+  unfold densify at hj hk ⊢
+  rw [densify_nodes] at hj
+  rw [densify_kind] at hk
+  by_cases hjv : j ∈ nm.map (·.2)
+  · exact densify_visited _ c5 j hjv hk
+  · rw [densify_outs_notin _ c5 j hjv]
+    exact f j hj (fun e he hej => hjv (List.mem_map.2 ⟨e, he, hej⟩)) hk
+
+/-! ## removal of the dangling logic keeps the forks gap-free -/
+theorem dangling_ffull {own : List Nat} : ∀ (dang : List Nat) (c c' : Circ), WFc0 c → FFull c →
+    (∀ n ∈ dang, n ∈ c.nodes ∨ (c.nobj n).alive = false) → foldO (danglingStep own) c dang = some c' → FFull c' := by
+  intro dang
+  induction dang with
+  | nil => intro c c' _ ff _ h; simp only [foldO, Option.some.injEq] at h; exact h ▸ ff
+  | cons n rest ih =>
+    intro c c' wf ff hd h
+    simp only [foldO] at h
+    cases hs : danglingStep own c n with
+    | none => simp [hs] at h
+    | some c1 =>
+      simp only [hs] at h
+      unfold danglingStep at hs
+      split at hs
+      · rename_i hal
+        have hn : n ∈ c.nodes := by
+          rcases hd n (by simp) with h1 | h1
           · exact h1
-          · exact absurd h1 hins
-        have hrp : (m.lobj l).readerPin = 0 := by
-          have := pin_eq_some_lt hr3
-          have := hone r hrio
-          omega
-        rw [hrp] at hr3
-        have hol : OutLine m l := ⟨r, hrio, hins, hr3⟩
-        have : outTarget m nm l = some (e.2, p) := by
-          unfold outTarget
-          simp only [hr1, houts0, Nat.lt_irrefl, if_false, hld, (nmFind_iff wf0 ok hn).2 hee, Option.map_some, hlp]
-        exact d5 l (hall l hol) (by simp) _ _ this
-    apply gapfree_of_pins
-    intro p hp
-    obtain ⟨q, hpq, hq⟩ := f.last e he p hp
-    cases hqy : pin (c5.nobj e.2).outs q with
-    | none => exact absurd hqy hq
-    | some y =>
-      -- an occupied pin is below the number of outputs of the implementation node, or is exactly that number
-      have bound : q ≤ (m.nobj e.1).outs.length := by
-        rcases inv5.outs e he q y hqy with ⟨l', hl', h1, h2, _⟩ | ⟨l2, _, _, hol2, _, ht2⟩
-        · have := outs_lt_of_driver wf0 hl' h1; omega
-        · obtain ⟨hlm2, O2, _, _, _, hcase2⟩ := outTarget_spec wf0 ok hol2 ht2
-          rcases hcase2 with ⟨_, hDm2, hdp2⟩ | ⟨_, d2, hd2, hDm2, hdp2⟩
-          · have : O2 = e.1 := (Prod.mk.inj (pairwise_snd_unique ok.valsD hDm2 hee rfl)).1
-            subst this; omega
-          · have : d2 = e.1 := (Prod.mk.inj (pairwise_snd_unique ok.valsD hDm2 hee rfl)).1
-            subst this
-            have := outs_lt_of_driver wf0 hlm2 hd2; omega
-      by_cases hpl : p < (m.nobj e.1).outs.length
-      · exact cover p hpl
-      · have : p = q := by omega
-        rw [this]; exact hq
-  · exact f.old j hj (fun e he hej => himg ⟨e, he, hej⟩) hk
+          · rw [h1] at hal; cases hal
+        obtain ⟨wf1, ff1, keeps⟩ := removeDanglingFrom_wf0 wf (Or.inl hn) hs
+        exact ih c1 c' wf1 (ff1 ff) (fun x hx => keeps x (hd x (by simp [hx]))) h
+      · cases hs
+        exact ih c c' wf ff (fun x hx => hd x (by simp [hx])) h
 
-theorem padTo_self (L : Pins) : padTo L L.length = L := by simp [padTo]
-
-/-- the regular case: the fork outputs of the result of `substitute` are gap-free -/
+/-! ## the theorem -/
+/-- under the structural precondition the fork outputs of the result of `substitute` are gap-free -/
 theorem substituteObj_ffull {c c' : Circ} {i : Nat} {m : Circ} (wfc : WFc c) (hst : substStatic c i m = true)
-    (hreg : substRegular c i m = true) (h : substituteObj c i m = some c') : FFull c' := by
+    (h : substituteObj c i m = some c') : FFull c' := by
   have wfc0 := wfc.toWFc0
   unfold substStatic implStatic at hst
   simp only [Bool.and_eq_true, List.contains_eq_mem, decide_eq_true_eq] at hst
   obtain ⟨⟨⟨hi, hk⟩, hloop⟩, ⟨hinv, hioN⟩, hdesNP⟩ := hst
-  have wfm : WFc m := (invOK_iff m).1 hinv
-  have wf : WFc0 m := wfm.toWFc0
+  have wf : WFc0 m := ((invOK_iff m).1 hinv).toWFc0
   unfold substituteObj at h
   cases hs : implShape m with
   | none => simp [hs] at h
@@ -476,20 +253,11 @@ theorem substituteObj_ffull {c c' : Circ} {i : Nat} {m : Circ} (wfc : WFc c) (hs
     have har' : arityOK c i sh = true := by simpa using har
     unfold arityOK at har'
     simp only [Bool.and_eq_true, decide_eq_true_eq] at har'
-    unfold substRegular at hreg
-    simp only [hs, Bool.and_eq_true, beq_iff_eq, List.all_eq_true, decide_eq_true_eq, Bool.or_eq_true, Bool.not_eq_true'] at hreg
-    obtain ⟨⟨⟨hlenO, hallO⟩, hone⟩, hports⟩ := hreg
-    have hports' : ∀ x ∈ m.io, forkCond m x = true → none ∉ (m.nobj x).outs := by
-      intro x hx hf
-      rcases hports x hx with h1 | h1
-      · rw [hf] at h1; cases h1
-      · exact all_isSome_gapfree (List.all_eq_true.2 h1)
     have hdes : ∀ dn, sh.des = some dn → inIos m dn = false := by
       intro dn hd
       unfold desNotPort at hdesNP
       simp only [hs, hd, Bool.not_eq_true'] at hdesNP
       exact hdesNP
-    obtain ⟨k1, k2, k3⟩ := substKinds_des hk hs
     obtain ⟨hsp1, hsp2, _⟩ := implShape_spec hs
     unfold substCopy at h
     cases h2 : foldO (addImplNode m (c.nobj i).name sh.des) (phase1 c i m sh.des) m.nodes with
@@ -514,15 +282,15 @@ theorem substituteObj_ffull {c c' : Circ} {i : Nat} {m : Circ} (wfc : WFc c) (hs
             -- the node loop
             have n2 := foldO_inv (addImplNode m (c.nobj i).name sh.des)
               (fun st rest => CopyInv (InL c i) (OutL c i) st.1 st.2 ∧ NmInv m sh.des st.1 st.2 rest ∧ st.1.nextL = c.nextL ∧
-                (∀ x ∈ rest, x ∈ m.nodes) ∧ rest.Nodup ∧ FF2 m sh.des st.1 st.2 rest)
+                (∀ x ∈ rest, x ∈ m.nodes) ∧ rest.Nodup ∧ OldFF st.2 st.1)
               (fun s a rest s' hinv hf => by
                 obtain ⟨a1, a2, a3, a4, a5, a6⟩ := hinv
                 have hnd := List.nodup_cons.1 a5
                 have han := a4 a (by simp)
                 exact ⟨addImplNode_inv a1 hf, addImplNode_nm wf hdes han hnd.1 a2 hf, by rw [addImplNode_nextL hf]; exact a3,
-                  fun x hx => a4 x (by simp [hx]), hnd.2, addImplNode_ff2 wfm hdes han a1 a2 a6 hf⟩)
+                  fun x hx => a4 x (by simp [hx]), hnd.2, addImplNode_oldff wf hdes han a2 a6 hf⟩)
               m.nodes _ _ ⟨phase1_inv wfc0 hi hk hs, phase1_nm wfc0 hi wf hs hdes _, phase1_nextL c i m sh.des, fun x hx => hx,
-                wf.nodes_nodup, phase1_ff2 wfc hi k2⟩ h2
+                wf.nodes_nodup, phase1_oldff sh.des wfc hi⟩ h2
             obtain ⟨i2, nmi, hnl2, _, _, ff2⟩ := n2
             simp only at i2 nmi hnl2 ff2
             have ok := nmi.ok
@@ -533,16 +301,15 @@ theorem substituteObj_ffull {c c' : Circ} {i : Nat} {m : Circ} (wfc : WFc c) (hs
               · intro e he p y hp; rw [(nmi.empty e he).1] at hp; simp at hp
             have n3 := foldO_inv (addImplLine m nm)
               (fun cc rest => Inv3 m nm c.nextL cc rest ∧ CopyInv (InL c i) (OutL c i) cc nm ∧ (∀ x ∈ rest, x ∈ m.lines) ∧ rest.Nodup ∧
-                FFk m nm cc ∧ Done3 m nm cc rest)
+                OldFF nm cc)
               (fun s a rest s' hinv hf => by
-                obtain ⟨a1, a2, a3, a4, a5, a6⟩ := hinv
+                obtain ⟨a1, a2, a3, a4, a5⟩ := hinv
                 have hnd := List.nodup_cons.1 a4
                 have hla := a3 a (by simp)
-                have hff := addImplLine_ff3 wf ok hla a5 a6 hf
                 exact ⟨addImplLine_inv3 wf ok hla hnd.1 a1 hf, addImplLine_inv a2 (gImplLine_of_inv3 wf ok hla a1) hf,
-                  fun x hx => a3 x (by simp [hx]), hnd.2, hff.1, hff.2⟩)
-              m.lines c2 c3 ⟨inv3_0, i2, fun x hx => hx, wf.lines_nodup, ff2.k, fun l hl hlr => absurd hl hlr⟩ h3
-            obtain ⟨inv3, ci3, _, _, ff3, d3⟩ := n3
+                  fun x hx => a3 x (by simp [hx]), hnd.2, addImplLine_oldff wf ok hla a5 hf⟩)
+              m.lines c2 c3 ⟨inv3_0, i2, fun x hx => hx, wf.lines_nodup, ff2⟩ h3
+            obtain ⟨inv3, ci3, _, _, ff3⟩ := n3
             -- the inputs
             have hinjI : ∀ p q y, pin (c.nobj i).ins p = some y → pin (c.nobj i).ins q = some y → p = q := by
               intro p q y a b
@@ -569,13 +336,12 @@ theorem substituteObj_ffull {c c' : Circ} {i : Nat} {m : Circ} (wfc : WFc c) (hs
                 obtain ⟨_, l', h1, _, h3'⟩ := inv3.ins e he p y hp
                 exact Or.inl ⟨l', h1, h3'⟩
             have n4 := foldO_inv (connectIn m nm)
-              (fun cc rest => Inv4 c i m nm c.nextL cc rest ∧ FFk m nm cc ∧ Done3 m nm cc [])
+              (fun cc rest => Inv4 c i m nm c.nextL cc rest ∧ OldFF nm cc)
               (fun s a rest s' hinv hf => by
-                obtain ⟨a1, a2, a3⟩ := hinv
-                have hff := connectIn_ff4 a1 a2 a3 hf
-                exact ⟨connectIn_inv4 a1 (gConnectIn_of_inv4 wf ok nmi.keyCond a1) hf, hff.1, hff.2⟩)
-              _ c3 c4 ⟨inv4_0, ff3, d3⟩ h4
-            obtain ⟨inv4, ff4, d34⟩ := n4
+                obtain ⟨a1, a2⟩ := hinv
+                exact ⟨connectIn_inv4 a1 (gConnectIn_of_inv4 wf ok nmi.keyCond a1) hf, connectIn_oldff a1 a2 hf⟩)
+              _ c3 c4 ⟨inv4_0, ff3⟩ h4
+            obtain ⟨inv4, ff4⟩ := n4
             -- the outputs
             have houtN : sh.outLines.Nodup := by
               rw [hsp2, List.filterMap_map]
@@ -587,14 +353,6 @@ theorem substituteObj_ffull {c c' : Circ} {i : Nat} {m : Circ} (wfc : WFc c) (hs
               have r1 := (wf.insBack a (wf.ioIn a ha') 0 y h1).2.1
               have r2 := (wf.insBack b (wf.ioIn b hb') 0 y h2').2.1
               rw [r1] at r2; exact Option.some.inj r2
-            have hpad : padTo (c.nobj i).outs sh.outLines.length = (c.nobj i).outs := by rw [← hlenO]; exact padTo_self _
-            have hallsome : ∀ pr ∈ sh.outLines.zip (padTo (c.nobj i).outs sh.outLines.length), pr.2.isSome = true := by
-              intro pr hpr
-              rw [hpad] at hpr
-              exact hallO pr.2 (List.of_mem_zip hpr).2
-            have hfst : (sh.outLines.zip (padTo (c.nobj i).outs sh.outLines.length)).map (·.1) = sh.outLines := by
-              rw [hpad]
-              exact List.map_fst_zip (by omega)
             have inv5_0 : Inv5 m nm (sh.outLines.zip (padTo (c.nobj i).outs sh.outLines.length)) (c4, [])
                 (sh.outLines.zip (padTo (c.nobj i).outs sh.outLines.length)) := by
               refine ⟨⟨inv4.ci.s.congr_pred (fun _ => Iff.rfl) (fun l => zip_padTo_pend har'.2 l), inv4.ci.nm,
@@ -610,30 +368,29 @@ theorem substituteObj_ffull {c c' : Circ} {i : Nat} {m : Circ} (wfc : WFc c) (hs
                 obtain ⟨_, l', h1, h3'⟩ := inv4.outs e he p y hp
                 exact Or.inl ⟨l', h1, h3'⟩
             have n5 := foldO_inv (connectOut m nm)
-              (fun st rest => Inv5 m nm (sh.outLines.zip (padTo (c.nobj i).outs sh.outLines.length)) st rest ∧ FFk m nm st.1 ∧ Done3 m nm st.1 [] ∧ Done5 m nm sh.outLines st.1 rest ∧ st.2 = [] ∧
-                (∀ pr ∈ rest, pr.2.isSome = true))
+              (fun st rest => Inv5 m nm (sh.outLines.zip (padTo (c.nobj i).outs sh.outLines.length)) st rest ∧ OldFF nm st.1)
               (fun s a rest s' hinv hf => by
-                obtain ⟨a1, a2, a3, a4, a5, a6⟩ := hinv
-                have hff := connectOut_ff5 (a6 a (by simp)) a2 a3 a4 a5 hf
-                exact ⟨connectOut_inv5 a1 (gConnectOut_of_inv5 wf ok nmi.keyCond a1) hf, hff.1, hff.2.1, hff.2.2.1, hff.2.2.2,
-                  fun pr hpr => a6 pr (by simp [hpr])⟩)
-              _ (c4, []) (c5, dang)
-              ⟨inv5_0, ff4, d34, fun l hl hlr => by rw [hfst] at hlr; exact absurd hl hlr, rfl, hallsome⟩ h5
-            obtain ⟨inv5, ff5, d35, d5, hdang, _⟩ := n5
-            simp only at hdang ff5 d35 d5
-            subst hdang
-            simp only [foldO, Option.some.injEq] at h
-            subst h
-            refine ffull_final wfm ok ff2.keysC hone ?_ hports' inv5 ff5 d35 d5
-            rintro l ⟨O, hO, hOl, hOp⟩
-            rw [hsp2]
-            simp only [List.mem_filterMap, List.mem_map, List.mem_filter, id]
-            exact ⟨some l, ⟨O, ⟨hO, by simpa using hOl⟩, hOp⟩, rfl⟩
+                obtain ⟨a1, a2⟩ := hinv
+                exact ⟨connectOut_inv5 a1 (gConnectOut_of_inv5 wf ok nmi.keyCond a1) hf, connectOut_oldff a2 hf⟩)
+              _ (c4, []) (c5, dang) ⟨inv5_0, ff4⟩ h5
+            obtain ⟨inv5, ff5⟩ := n5
+            simp only at ff5
+            -- dense outputs, then the removal of the dangling logic
+            have wf5 : WFc0 c5 := inv5.oi.s.to_wfc0 (fun l _ => pend_nil l) (fun l _ => pend_nil l)
+            have hvals : ∀ v ∈ nm.map (·.2), v ∈ c5.nodes := by
+              intro v hv
+              obtain ⟨e, he, rfl⟩ := List.mem_map.1 hv
+              exact inv5.oi.nm e he
+            have wf5d : WFc0 (densify c5 nm) := densify_wf0 _ c5 wf5 hvals
+            exact dangling_ffull dang (densify c5 nm) c' wf5d (densify_ffull ff5) (fun n hn => Or.inl (by
+              show n ∈ (densify c5 nm).nodes
+              unfold densify
+              rw [densify_nodes]; exact inv5.oi.dang n hn)) h
 
-/-- `substitute`, regular case, structural precondition only: the result satisfies `WFc` -/
+/-- `substitute` under the structural precondition `substStatic`: the result satisfies `WFc` -/
 theorem substituteObj_wf_static {c c' : Circ} {i : Nat} {m : Circ} (wfc : WFc c) (hst : substStatic c i m = true)
-    (hreg : substRegular c i m = true) (h : substituteObj c i m = some c') : WFc c' :=
-  ⟨substituteObj_wf0 wfc.toWFc0 (substPre0_of_static wfc.toWFc0 hst) h, substituteObj_ffull wfc hst hreg h⟩
+    (h : substituteObj c i m = some c') : WFc c' :=
+  ⟨substituteObj_wf0 wfc.toWFc0 (substPre0_of_static wfc.toWFc0 hst) h, substituteObj_ffull wfc hst h⟩
 
 theorem ffull_forksFull {c : Circ} (h : FFull c) : forksFull c = true := by
   unfold forksFull
@@ -648,13 +405,48 @@ theorem ffull_forksFull {c : Circ} (h : FFull c) : forksFull c = true := by
     | some _ => rfl
   · simp [hk]
 
-/-- structural conditions imply the full precondition `substPre` -/
-theorem substPre_of_static {c : Circ} {i : Nat} {m : Circ} (wfc : WFc c) (hst : substStatic c i m = true)
-    (hreg : substRegular c i m = true) : substPre c i m = true := by
+/-- the structural precondition implies the run-time precondition `substPre` -/
+theorem substPre_of_static {c : Circ} {i : Nat} {m : Circ} (wfc : WFc c) (hst : substStatic c i m = true) :
+    substPre c i m = true := by
   unfold substPre
   rw [substPre0_of_static wfc.toWFc0 hst, Bool.true_and]
   cases h : substituteObj c i m with
   | none => rfl
-  | some c' => exact ffull_forksFull (substituteObj_ffull wfc hst hreg h)
+  | some c' => exact ffull_forksFull (substituteObj_ffull wfc hst h)
+
+/-! ## `resolve_tlib_cells` -/
+theorem foldG_mono {σ α : Type} (f : σ → α → Option σ) (g g' : σ → α → Bool) (Inv : σ → Prop)
+    (himp : ∀ s a, Inv s → g s a = true → g' s a = true) (step : ∀ s a s', Inv s → g s a = true → f s a = some s' → Inv s') :
+    ∀ (as : List α) (s : σ), Inv s → foldG f g s as = true → foldG f g' s as = true := by
+  intro as
+  induction as with
+  | nil => intro _ _ _; rfl
+  | cons a rest ih =>
+    intro s hs h
+    simp only [foldG, Bool.and_eq_true] at h ⊢
+    refine ⟨himp s a hs h.1, ?_⟩
+    cases hf : f s a with
+    | none => rfl
+    | some s1 =>
+      simp only [hf] at h
+      exact ih s1 (step s a s1 hs h.1 hf) h.2
+
+theorem resolvePre_of_static {lib : Lib} {c : Circ} (wf : WFc c) (h : resolveStatic lib c = true) : resolvePre lib c = true := by
+  unfold resolveStatic at h
+  unfold resolvePre
+  refine foldG_mono (resolveStep lib) _ _ (fun cc => WFc cc) ?_ ?_ c.nodes c wf h
+  · intro s a hs hg
+    cases hl : lib.find (s.nobj a).kind with
+    | none => rfl
+    | some mm =>
+      simp only [hl] at hg ⊢
+      exact substPre_of_static hs hg
+  · intro s a s' hs hg hf
+    unfold resolveStep at hf
+    cases hl : lib.find (s.nobj a).kind with
+    | none => simp only [hl, Option.some.injEq] at hf; exact hf ▸ hs
+    | some mm =>
+      simp only [hl] at hf hg
+      exact substituteObj_wf_static hs hg hf
 
 end KV.CircObj
